@@ -93,6 +93,46 @@ def c_harsch(k):
     _hyper(k, mat, G, G0, K, K0)
 
 
+_METHODS = ("potential", "B_n", "B_m", "B_n_B_Gamma", "B_n_B_Kappa", "B_m_B_Gamma", "B_m_B_Kappa")
+
+
+def _values_only(cls):
+    """History obligation: a law evaluates the strains it is GIVEN.  The same law object is asked twice with the same four
+    array objects, whose contents were overwritten in place in between (how a caller that keeps work arrays uses it); every
+    method must return what a fresh law object returns for fresh arrays holding the second values.  A memo keyed on the
+    identity of an argument, or any other state carried from call to call, fails here."""
+
+    def c(k):
+        k.covers(*[getattr(cls, m) for m in _METHODS])
+        Ei, Fi, G1, G01, K1, K01 = _inputs(k, nonzero_gamma=True)
+        G2 = k.reals("G2", 3)
+        G02 = k.reals("G02", 3, sample=lambda r: r.normal(size=3) * 1.7)
+        K2, K02 = k.reals("K2", 3), k.reals("K02", 3)
+        k.assume(G2 @ G2 > 0)
+        if cls is mm.Harsch2021:
+            k.assume(G01 @ G01 > 0)
+            k.assume(G02 @ G02 > 0)
+        mat = cls(Ei, Fi)
+        bufs = [np.array(list(a), dtype=object) for a in (G1, G01, K1, K01)]
+        for m in _METHODS:  # first round: whatever the object remembers, it remembers now
+            getattr(mat, m)(*bufs)
+        for buf, second in zip(bufs, (G2, G02, K2, K02)):
+            buf[:] = second
+        fresh = cls(Ei, Fi)
+        for m in reversed(_METHODS):
+            got = getattr(mat, m)(*bufs)
+            want = getattr(fresh, m)(*[np.array(list(a), dtype=object) for a in (G2, G02, K2, K02)])
+            k.prove_eq(f"{m}: second call with the same array objects, overwritten in place, evaluates the new values", got, want)
+        for buf, second in zip(bufs, (G2, G02, K2, K02)):
+            k.prove_eq("the arguments are not modified", buf, second)
+
+    return c
+
+
+contract("C12", "Simo1986/results depend on the values of the arguments only", samples=2, timeout=60)(_values_only(mm.Simo1986))
+contract("C12", "Harsch2021/results depend on the values of the arguments only", samples=2, timeout=60)(_values_only(mm.Harsch2021))
+
+
 @contract("C12", "material laws/stiffnesses of any numeric type", samples=0, replayable=False, timeout=30)
 def c_dtypes(k):
     """stiffness vectors given as integer arrays or Python lists (test_cantilever.py itself passes np.array([5, 1, 1])) describe
